@@ -163,6 +163,7 @@ def hermetic_execute(engine, prop, plan):
 
 def _worker_chunk(indices):
     out = []
+    errors = []
     eng = _W["engine"]
     for i in indices:
         faulthandler.dump_traceback_later(_W["timeout"], exit=True)
@@ -170,7 +171,11 @@ def _worker_chunk(indices):
             r = run_one(eng, _W["prop"], _W["tier"], _W["seed"], i)
         except Exception:
             faulthandler.cancel_dump_traceback_later()
-            return {"harness_error": traceback.format_exc(), "index": i}
+            # the run is void (nothing it says is believed); the other runs of the batch still count
+            errors.append({"harness_error": traceback.format_exc(), "index": i})
+            if len(errors) >= 3:
+                break
+            continue
         faulthandler.cancel_dump_traceback_later()
         keep_plan = bool(r["violations"]) or i < 3
         out.append(
@@ -183,7 +188,7 @@ def _worker_chunk(indices):
                 plan=r["plan"] if keep_plan else None,
             )
         )
-    return {"results": out}
+    return {"results": out, "errors": errors}
 
 
 # --------------------------------------------------------------------------------------
@@ -348,10 +353,10 @@ def run_check(prop, tier, runs=None, jobs=None, verif_seed=None, write_evidence=
                 skipped_for_cap += len(ic)
                 continue
             r = _worker_chunk(ic)
-            if "harness_error" in r:
-                harness_errors.append(r)
-                break
+            harness_errors.extend(r["errors"])
             results.extend(r["results"])
+            if len(harness_errors) >= 10:
+                break
     else:
         ctx = mp.get_context("fork")
         with cf.ProcessPoolExecutor(
@@ -384,21 +389,23 @@ def run_check(prop, tier, runs=None, jobs=None, verif_seed=None, write_evidence=
                     for fut in done:
                         ic = pending.pop(fut)
                         r = fut.result()
-                        if "harness_error" in r:
-                            harness_errors.append(r)
-                        else:
-                            results.extend(r["results"])
-                    if harness_errors:
+                        harness_errors.extend(r["errors"])
+                        results.extend(r["results"])
+                    if len(harness_errors) >= 10:
                         for f in pending:
                             f.cancel()
                         break
             except cf.process.BrokenProcessPool as e:
                 raise HarnessError(f"worker died (timeout or crash): {e}")
 
-    if harness_errors:
+    harness_errors.sort(key=lambda r: r["index"])
+    if harness_errors and (want_digests or not any(r["violations"] for r in results)):
+        # void runs and nothing else to report: the check cannot speak
         print("HARNESS-ERROR in run", harness_errors[0]["index"])
         print(harness_errors[0]["harness_error"])
         return 2
+    # (void runs next to runs with violations: the violations are reported below -- each is re-executed, minimised and
+    # replayed in a fresh interpreter before it is believed -- and the void runs are listed after them)
 
     results.sort(key=lambda r: r["index"])
     if want_digests:
@@ -471,6 +478,11 @@ def run_check(prop, tier, runs=None, jobs=None, verif_seed=None, write_evidence=
         n_reported += 1
         exit_code = 1
 
+    if harness_errors:
+        print(f"note: {len(harness_errors)} run(s) were void (harness error), first in run {harness_errors[0]['index']}:")
+        print("  " + harness_errors[0]["harness_error"].strip().splitlines()[-1][:300])
+        if exit_code == 0:
+            return 2  # only known findings next to void runs: not a clean verdict
     wall = time.time() - t0
     n = len(results)
     for name, cnt in sorted(agg_probes.items()):
